@@ -75,6 +75,9 @@ MUTANTS = [
     ('c05-done-placeholder-skipped-before-matching-unfixed', 'C05', 'c05rt', 100, 'python/experiment/model/graph.py',
      "            remaining_looped_ids.difference_update(matched_components)\n\n            # VV: Finished/Shutdown/Failed placeholders do not need to be updated, as they're already done\n            last_state = self._placeholders.get(p_ref, {}).get('state', experiment.model.codes.RUNNING_STATE)\n",
      "            last_state = self._placeholders.get(p_ref, {}).get('state', experiment.model.codes.RUNNING_STATE)\n            if last_state == experiment.model.codes.RUNNING_STATE:\n                remaining_looped_ids.difference_update(matched_components)\n"),
+    ('c07-platform-global-blueprint-below-default-stage-blueprint-unfixed', 'C07', 'c07', 200, 'python/experiment/model/frontends/flowir.py',
+     "            if platform != FlowIR.LabelDefault:\n                global_stage_blueprint = FlowIR.override_object(\n",
+     "            if False:\n                global_stage_blueprint = FlowIR.override_object(\n"),
     ('c14-instance-description-written-in-place', 'C14', 'c14rt', 192, 'python/experiment/model/conf.py',
      "        temp_file = '%s.%s.tmp' % (instance_file, uuid.uuid4())\n", "        temp_file = instance_file\n"),
     ('c14-status-written-in-place', 'C14', 'c14rt', 192, 'python/experiment/model/data.py',
